@@ -6,6 +6,23 @@
 //     only) — that is what C10 states about it; what C10 can decide of it directly is in part 2.
 //  2. the C10 harnesses on the codec's own helper functions (full domain) and bounded shapes.
 use super::*;
+// named explicitly: the harness must not depend on which of these the file under verification happens to import
+use alloy_primitives::FixedBytes;
+use alloy_primitives::Uint;
+use alloy_primitives::U256;
+use alloy_sol_types::sol;
+use alloy_sol_types::SolValue;
+use axelar_soroban_std::ensure;
+use soroban_sdk::Bytes;
+use soroban_sdk::BytesN;
+use soroban_sdk::Env;
+use soroban_sdk::String;
+use crate::abi::alloc::string::String as StdString;
+use crate::abi::alloc::vec;
+use crate::error::ContractError;
+use crate::types;
+use crate::types::HubMessage;
+use crate::types::Message;
 use crate::types::{DeployInterchainToken as TDeploy, InterchainTransfer as TTransfer};
 use soroban_sdk::shim::{self, Wordy, Words};
 
